@@ -93,6 +93,33 @@ def gen_case(ctx, depth):
     return pol(with_h), pol(without), args, (7 if stmt_form else k)
 
 
+def family_case(ctx, shapes, assigns):
+    """a shape of the boolean-nesting family as the evaluated operand / scrutinee, a hazard where its value sends nobody"""
+    g = cg.Gen(ctx.rng.fork(), 2, ffi=True, todo_rate=10 ** 9)
+    g.uses_ffi = True
+    s = ctx.rng.choice(shapes)
+    args = ctx.rng.choice(assigns)
+    v = cg.bool_eval(s, args)
+    env = [{}, dict(cg.BOOL_PARAMS)]
+    hz = ctx.rng.choice(hazards(g, cc.T_BOOL, env))
+    good = ('EBool', ctx.rng.chance(1, 2))
+    c = ctx.rng.below(3)
+    def mk(h):
+        if c == 0:
+            return (('EOr', s, h), 1) if v else (('EAnd', s, h), 0)
+        if c == 1:
+            return (('EIf', s, ('EBlock', [], good), ('EBlock', [], h)), 3) if v else (('EIf', s, ('EBlock', [], h), ('EBlock', [], good)), 4)
+        arms = [(('PVals', [('PLit', ('LBool', True))]), good if v else h), (('PVals', [('PLit', ('LBool', False))]), h if v else good)]
+        return ('EMatch', s, arms), 8
+    def pol(e):
+        p = dict(g.finish_policy())
+        p['funs'] = [{'name': 'main', 'params': cg.BOOL_PARAMS, 'ret': cc.T_BOOL, 'body': [('SReturn', e)]}]
+        p['uses_ffi'] = True
+        return p
+    (eh, k), (eb, _) = mk(hz), mk(('EBool', ctx.rng.chance(1, 2)))
+    return pol(eh), pol(eb), args, k
+
+
 def no_returns(x):
     if isinstance(x, tuple) and x and x[0] in ('SReturn', 'EReturn', 'SCheck'):
         return False
@@ -116,6 +143,12 @@ def run(ctx):
         if not no_returns(main['body'][:-1]) or len(cc.policy_text(ph)) > 6000:
             continue
         cases.append((ph, pb, args, k))
+    # the boolean-nesting family in the evaluated position (short circuits whose own code ends in a negation or a join)
+    fam_shapes = cg.bool_depth1() + cg.bool_depth2()
+    fam_shapes += [('ENot', x) for x in cg.bool_depth2()] if ctx.thorough else cg.bool_depth3_sample(ctx.rng, 400)
+    assigns = cg.bool_assignments()
+    for _ in range(900 if ctx.thorough else 60):
+        cases.append(family_case(ctx, fam_shapes, assigns))
     lines = []
     for (ph, pb, args, k) in cases:
         lines.append(cc.run_line(ph, "fn", "main", 0, args))
@@ -126,7 +159,7 @@ def run(ctx):
         ctx.oblige("harness:run", False, err)
         return
     oracle_fail, runs, l1, by_kind, exits = [], [], [], {}, {}
-    kinds = KINDS + ["if statement: untaken block"]
+    kinds = KINDS + ["if statement: untaken block", "match on a boolean shape: untaken arm"]
     for i, (ph, pb, args, k) in enumerate(cases):
         rh, rb, cl = res[3 * i], res[3 * i + 1], res[3 * i + 2]
         if rh.startswith("compile-err") or rb.startswith("compile-err") or rh == "panic" or rh.startswith("parse"):
